@@ -10,6 +10,7 @@ that record the same information and perform the same adversarial extra evaluati
 import sys
 import types
 
+MEMO = {}  # unique-minimum contract: the same objective with the same fixed values / limits has ONE optimum
 CALLS = []  # records of backend calls in the current scenario run
 MODE = {"symbolic": True, "adversarial": True}
 HOOKS = {"before_eval": None}  # scenario callback(point as list of all-parameter or free-parameter values) before an objective evaluation at a fresh point
@@ -23,6 +24,7 @@ def _before(point):
 
 def reset():
     del CALLS[:]
+    MEMO.clear()
     HOOKS["before_eval"] = None
     MODE["adversarial"] = True
 
@@ -48,6 +50,33 @@ def _fresh_vec(tag, n):
 # scipy.optimize
 
 
+def _opt_key(fun, n, bounds, constraints):
+    """identify 'the same minimisation problem': owner minimizer, fixed mask and fixed values, bounds; None if unknown.
+    Contract: a well-posed problem has a unique minimum, so re-minimising it (from any start) reports the same point."""
+    if constraints:
+        return None
+    owner = getattr(fun, "__self__", None)
+    if owner is None and getattr(fun, "__closure__", None):
+        for cell in fun.__closure__:
+            try:
+                v = cell.cell_contents
+            except ValueError:
+                continue
+            if hasattr(v, "_par_fixed") and hasattr(v, "_par_names"):
+                owner = v
+                break
+    if owner is None or not hasattr(owner, "_par_fixed"):
+        return None
+    sx = _sx()
+    mask = tuple(bool(b) for b in owner._par_fixed)
+    vals = []
+    for b, v in zip(mask, list(_np().asarray(owner._par_val).d)):
+        if b:
+            vals.append(str(sx.simp(sx.rv(v))) if sx.is_sym(v) else repr(float(v)))
+    bkey = None if bounds is None else tuple((str(lo), str(hi)) for lo, hi in bounds)
+    return ("opt", id(owner), mask, tuple(vals), bkey)
+
+
 class SymOpt:
     """stands in for the module object `opt` (scipy.optimize) inside scipy_optimize_minimizer"""
 
@@ -68,7 +97,12 @@ class SymOpt:
         _before(q)
         rec["fq"] = fun(snp.array(q))  # objective identity probe
         rec["V_at_q"] = DECOMP[-1][1] if DECOMP else None  # the matrix the cost kernel consumed for this evaluation
-        xs = _fresh_vec("opt%d_x" % k, n)
+        key = _opt_key(fun, n, bounds, constraints)
+        memo = MEMO.get(key) if key is not None else None
+        xs = list(memo["x"]) if memo is not None else _fresh_vec("opt%d_x" % k, n)
+        if key is not None and memo is None:
+            MEMO[key] = dict(x=list(xs))
+        rec["memo_hit"] = memo is not None
         if bounds is not None:
             for xi, b in zip(xs, bounds):
                 lo, hi = b
@@ -105,17 +139,18 @@ class RecOpt:
     def minimize(self, fun, x0, *a, **kw):
         import numpy as np
 
-        res = self._real.minimize(fun, x0, *a, **kw)
-        x = np.asarray(res.x, dtype=float)
-        q = x + 0.37 * (1.0 + np.abs(x)) * np.array([(-1) ** i for i in range(len(x))])
-        rec = dict(kind="opt.minimize", n=len(x), x0=list(np.asarray(x0, dtype=float)), bounds=kw.get("bounds"), constraints=list(kw.get("constraints") or ()), x=list(x), fun=float(res.fun), q=list(q))
+        # the probe evaluation happens BEFORE the real minimisation, so that the real backend's own last evaluation
+        # (and hence the state the code under test is left in) is exactly what it is without this recorder
+        x0a = np.asarray(x0, dtype=float)
+        q = x0a + 0.37 * (1.0 + np.abs(x0a)) * np.array([(-1) ** i for i in range(len(x0a))])
         cons = [c for c in (kw.get("constraints") or ()) if c.get("type") == "eq"]
+        rec = dict(kind="opt.minimize", n=len(x0a), x0=list(x0a), bounds=kw.get("bounds"), constraints=list(kw.get("constraints") or ()), q=list(q), fq=None, V_at_q=None)
         if not cons:
-            rec["fq"] = float(fun(q))  # also leaves the objective evaluated away from the optimum
+            rec["fq"] = float(fun(q))
             rec["V_at_q"] = DECOMP[-1][1] if DECOMP else None
-        else:
-            rec["fq"] = None
-            fun(x + 0.0)
+        res = self._real.minimize(fun, x0, *a, **kw)
+        rec["x"] = list(np.asarray(res.x, dtype=float))
+        rec["fun"] = float(res.fun)
         CALLS.append(rec)
         return res
 
@@ -135,7 +170,14 @@ class SymND:
             k = len(CALLS)
             x = list(snp.asarray(x).d)
             n = len(x)
-            self.f(snp.array(_fresh_vec("hes%d_at" % k, n)))  # evaluations around x leave the graph somewhere else
+            owner0 = getattr(self.f, "__self__", None)
+            hkey = ("nd.Hessian", id(owner0), tuple(bool(b) for b in getattr(owner0, "_par_fixed", [])), tuple(str(sx.simp(sx.rv(v))) if sx.is_sym(v) else repr(v) for v in x))
+            if owner0 is not None and hkey in MEMO:  # deterministic backend: same function, same point -> same matrix
+                H = MEMO[hkey]
+                CALLS.append(dict(kind="nd.Hessian", n=n, at=x, H=H, memo_hit=True))
+                return snp.array(H)
+            if MODE["adversarial"]:
+                self.f(snp.array(_fresh_vec("hes%d_at" % k, n)))  # evaluations around x leave the graph somewhere else
             # contract: the function does not depend on fixed parameters (zero rows / columns there) and the Hessian
             # of the free block at a local minimum is positive definite
             owner = getattr(self.f, "__self__", None)
@@ -150,6 +192,8 @@ class SymND:
 
             for mn in _O.leading_minors([[H[i][j] for j in free] for i in free]) if free else []:
                 e.assume(mn > 0)
+            if owner0 is not None:
+                MEMO[hkey] = H
             CALLS.append(dict(kind="nd.Hessian", n=n, at=x, H=H, fixed=mask))
             return snp.array(H)
 
@@ -294,10 +338,18 @@ class SymMinuit:
         fq = self.fcn(*q)
         v_at_q = DECOMP[-1][1] if DECOMP else None
         start = list(self.values)
+        sx = _sx()
+        key = ("migrad", id(getattr(self.fcn, "__self__", self.fcn)), tuple(bool(b) for b in self.fixed), tuple(str(sx.simp(sx.rv(self.values[i]))) if sx.is_sym(self.values[i]) else repr(self.values[i]) for i in range(len(self.names)) if self.fixed[i]),
+               tuple(str(l) for l in self.limits))
+        memo = MEMO.get(key)
         new = []
         for i in range(len(self.names)):
             if self.fixed[i]:
                 new.append(self.values[i])
+                continue
+            if memo is not None:
+                new.append(memo["x"][i])
+                self.errors[i] = memo["errors"][i]
                 continue
             v = e.fresh("mn%d_x_%d" % (k, i))
             lim = self.limits[i]
@@ -312,6 +364,8 @@ class SymMinuit:
             self.errors[i] = err
         for i, v in enumerate(new):
             self.values[i] = v
+        if memo is None:
+            MEMO[key] = dict(x=list(new), errors=list(self.errors))
         _before(new)
         fx = self.fcn(*new)
         self._visit("post")
@@ -324,11 +378,20 @@ class SymMinuit:
         k = len(CALLS)
         self._visit("hesse")
         n = len(self.names)
+        sx = _sx()
+        # deterministic backend: HESSE at the same point of the same problem gives the same matrix
+        hkey = ("hesse", id(getattr(self.fcn, "__self__", self.fcn)), tuple(bool(b) for b in self.fixed), tuple(str(sx.simp(sx.rv(v))) if sx.is_sym(v) else repr(v) for v in self.values))
+        if hkey in MEMO:
+            C = MEMO[hkey]
+            self.covariance = _np().array(C)
+            CALLS.append(dict(kind="hesse", C=C, fixed=list(self.fixed), memo_hit=True))
+            return self
         C = [[0.0] * n for _ in range(n)]
         for i in range(n):
             for j in range(i, n):
                 if not self.fixed[i] and not self.fixed[j]:
                     C[i][j] = C[j][i] = e.fresh("mn%d_C%d%d" % (k, i, j))
+        MEMO[hkey] = C
         free = [i for i in range(n) if not self.fixed[i]]
         from . import oracle as _O
 
@@ -397,13 +460,13 @@ def make_rec_minuit():
         def migrad(self, *a, **kw):
             import numpy as np
 
-            start = list(self.values)
+            start = np.array(list(self.values), dtype=float)
+            q = [start[i] if self.fixed[i] else start[i] + 0.37 * (1.0 + abs(start[i])) * (-1) ** i for i in range(len(start))]
+            fq = float(self.fcn(q))  # probe BEFORE the real minimisation (the end state is the real backend's own)
+            v_at_q = DECOMP[-1][1] if DECOMP else None
             r = real.Minuit.migrad(self, *a, **kw)
-            x = np.array(list(self.values), dtype=float)
-            q = [x[i] if self.fixed[i] else x[i] + 0.37 * (1.0 + abs(x[i])) * (-1) ** i for i in range(len(x))]
-            fq = float(self.fcn(q))  # adversarial extra evaluation: the objective is left away from the optimum
-            CALLS.append(dict(kind="migrad", start=start, x=list(x), errors=list(self.errors), fixed=list(self.fixed), limits=list(self.limits), fun=float(self.fval), q=q, fq=fq,
-                              V_at_q=DECOMP[-1][1] if DECOMP else None, errordef=self.errordef))
+            CALLS.append(dict(kind="migrad", start=list(start), x=list(self.values), errors=list(self.errors), fixed=list(self.fixed), limits=list(self.limits), fun=float(self.fval), q=q, fq=fq,
+                              V_at_q=v_at_q, errordef=self.errordef))
             return r
 
         def mncontour(self, p1, p2, **kw):
@@ -486,6 +549,61 @@ def install_backends(symbolic):
         mb.root_scalar = rec_root_scalar
         im.iminuit = make_rec_minuit()
     return True
+
+
+def install_special():
+    """scipy.special.gammaincc / gammainccinv inside kafe2.core.confidence -> uninterpreted Q / Qinv with axioms"""
+    import z3
+
+    from . import symx
+
+    import kafe2.core.confidence  # noqa: F401
+
+    conf = sys.modules["kafe2.core.confidence"]
+
+    def Q(a, x):
+        if not symx.is_sym(a) and not symx.is_sym(x):
+            from scipy.special import gammaincc as g
+
+            return float(g(a, x))
+        e = symx.cur()
+        ta, tx = symx.rv(a), symx.rv(x)
+        t = symx.UF_Q(ta, tx)
+        # range on x > 0, value at 0, inverse, monotonicity against earlier applications
+        e.axiom(z3.Implies(tx > 0, z3.And(t > 0, t < 1)))
+        e.axiom(z3.Implies(tx == 0, t == 1))
+        e.axiom(z3.Implies(tx >= 0, symx.UF_QINV(ta, t) == tx))
+        if symx.const_value(ta) == 1:
+            ex = symx.UF_EXP(-tx)
+            e.axiom(t == ex)
+        for (oa, ox, ot) in getattr(e, "_qterms", []):
+            e.axiom(z3.Implies(z3.And(oa == ta, ox < tx, ox >= 0), ot > t))
+            e.axiom(z3.Implies(z3.And(oa == ta, tx < ox, tx >= 0), t > ot))
+        e._qterms = getattr(e, "_qterms", []) + [(ta, tx, t)]
+        return symx.SymReal(t)
+
+    def Qinv(a, y):
+        if not symx.is_sym(a) and not symx.is_sym(y):
+            from scipy.special import gammainccinv as g
+
+            return float(g(a, y))
+        e = symx.cur()
+        ta, ty = symx.rv(a), symx.rv(y)
+        t = symx.UF_QINV(ta, ty)
+        e.axiom(z3.Implies(z3.And(ty > 0, ty < 1), z3.And(t > 0, symx.UF_Q(ta, t) == ty)))
+        e.axiom(z3.Implies(ty == 1, t == 0))
+        return symx.SymReal(t)
+
+    conf.gammaincc = Q
+    conf.gammainccinv = Qinv
+    # fresh per path: the engine object is reused across paths, so reset the memo at path start
+    orig_reset = symx.Engine._reset
+
+    def _reset(self, decisions, model):
+        orig_reset(self, decisions, model)
+        self._qterms = []
+
+    symx.Engine._reset = _reset
 
 
 STUB_NOTES = [
